@@ -152,7 +152,7 @@ def rule_regex(rule):
         return (b"(" + _HEADPART + b"(h:[^\\|]+\\|(h:[^\\|]+\\|)+|" + _LOCAL + b")"
                 + b"(p:[^\\|]+\\|){%d})" % n)
     if k == "never":  # a rule that proposes nothing (used to exercise the warning path)
-        return b"(?!)"
+        return b"" if n else b"(?!)"      # n = 1: the EMPTY pattern - valid, falsy, proposes the empty prefix
     raise ValueError(rule)
 
 
@@ -176,6 +176,8 @@ def real_match_len(rule, lru):
     if m.start() != 0:
         return None
     g = m.group()
+    if g == b"":
+        return 0
     st = stems_of(lru)
     acc, n = b"", 0
     for s in st:
@@ -449,7 +451,8 @@ def apply_op(ix, op):
             elif name == "RemovePrefix":
                 res["ret"] = t.remove_prefix_from_webentity(op["p"], op["id"] or False)
             elif name == "MovePrefix":
-                res["ret"] = t.move_prefix_to_webentity(op["p"], op["to"], op["frm"] or False)
+                mv = t.move_prefix_to_webentity_from_webentity if op.get("alias") else t.move_prefix_to_webentity
+                res["ret"] = mv(op["p"], op["to"], op["frm"] or False)
             elif name == "AddRule":
                 res.update(report_dict(t.add_webentity_creation_rule(
                     op["anchor"], rule_regex(op["rule"]), write_in_trie=op["wr"])))
